@@ -84,15 +84,35 @@ def generate(seed, idx, tier):
       mesh = 1
   faulted = rng.random() < 0.5
   T = rng.randrange(6, 16) if tier == 'quick' else rng.randrange(8, 31)
+  # late-training regime: the statistics start at matrix_epsilon * I, which
+  # keeps them non-singular for as long as it has not decayed away; with
+  # beta2 = 0.5 and > 20 ticks (0.5^20 = 1e-6) low-rank gradient histories
+  # give genuinely rank-deficient statistics, as in any real run after
+  # 1/(1-beta2) steps
+  late = not lob and rng.random() < 0.15
+  if late:
+    cfg['beta2'] = 0.5
+    cfg['statistics_compute_steps'] = 1
+    cfg['eigh'] = rng.random() < 0.6
+    T = rng.randrange(20, 30)
+    faulted = False
   ops = common.gen_history(rng, cfg, len(tree), T,
                            0.0 if not faulted else 1.0 / rng.randrange(4, 12),
                            scale_jumps=0.4, jumps=0.0)
+  if late:
+    for op in ops:
+      if op['op'] == 'STEP':
+        op['kind'] = wpick(rng, [('lowrank', 5), ('rows', 3), ('normal', 1)])
+        if op['kind'] == 'lowrank':
+          op['rank'] = 1
+        op.pop('scale', None)
+        op.pop('leaf_scales', None)
   if scale_class is not None:
     for op in ops:
       if op['op'] == 'STEP':
         op['scale'] = float(op.get('scale', 1.0)) * scale_class
   return {'system': 'ds', 'class': f"{mode}_{'lobpcg' if lob else 'eigh' if cfg['eigh'] else 'newton'}"
-          f"{'_x64' if x64 else '_f32'}{'_scaled' if scale_class else ''}", 'x64': x64, 'mode': mode, 'D': D,
+          f"{'_x64' if x64 else '_f32'}{'_scaled' if scale_class else ''}{'_late' if late else ''}", 'x64': x64, 'mode': mode, 'D': D,
           'mesh': mesh, 'config': cfg, 'tree': tree, 'lr': ds_gen.gen_lr(rng),
           'param_seed': rng.randrange(1000), 'ops': ops,
           'oracles': ['roots', 'gate', 'roots64']}
